@@ -61,34 +61,61 @@ func c17guard(f func() Sx) (res Sx) {
 	return f()
 }
 
+// one step on a given object: CreateFromBytes, colours (1000 = leave as initialised), exports
+const c17leave = 1000
+
+func c17monoStep(m *mono.MonoImg, W, H int, data []byte, pc, bc int) (obs []Sx) {
+	defer func() {
+		if r := recover(); r != nil {
+			obs = []Sx{Sym("panic")}
+		}
+	}()
+	err := m.CreateFromBytes(W, H, append([]byte{}, data...))
+	if pc != c17leave {
+		m.SetOLEDPixelColor(pc)
+	}
+	if bc != c17leave {
+		m.SetOLEDBckgColor(bc)
+	}
+	buf := append([]byte{}, m.GetImgSlice()...)
+	rgb := append([]byte{}, m.GetImgSliceRGB()...)
+	gray := append([]byte{}, m.GetImgSliceGray()...)
+	imgF := m.ConvertToImage(false)
+	imgT := m.ConvertToImage(true)
+	back := func(src image.Image) Sx {
+		return c17guard(func() Sx {
+			b := &mono.MonoImg{}
+			b.CreateFromImage(src)
+			return L(b.Width, b.Height, append([]byte{}, b.GetImgSlice()...))
+		})
+	}
+	return []Sx{err == nil, int(m.OLEDPixelColor), int(m.OLEDBckgColor), buf, rgb, gray, c17pix(imgF), c17pix(imgT), back(imgF), back(imgT)}
+}
+
 // ---- (mono W H #data pc bc | ...) ----
 func c17mono(W, H int, data []byte, pc, bc int) {
-	var obs []Sx
-	func() {
-		defer func() {
-			if r := recover(); r != nil {
-				obs = []Sx{Sym("panic")}
-			}
-		}()
-		m := &mono.MonoImg{}
-		err := m.CreateFromBytes(W, H, append([]byte{}, data...))
-		m.SetOLEDPixelColor(pc)
-		m.SetOLEDBckgColor(bc)
-		buf := append([]byte{}, m.GetImgSlice()...)
-		rgb := append([]byte{}, m.GetImgSliceRGB()...)
-		gray := append([]byte{}, m.GetImgSliceGray()...)
-		imgF := m.ConvertToImage(false)
-		imgT := m.ConvertToImage(true)
-		back := func(src image.Image) Sx {
-			return c17guard(func() Sx {
-				b := &mono.MonoImg{}
-				b.CreateFromImage(src)
-				return L(b.Width, b.Height, append([]byte{}, b.GetImgSlice()...))
-			})
-		}
-		obs = []Sx{err == nil, int(m.OLEDPixelColor), int(m.OLEDBckgColor), buf, rgb, gray, c17pix(imgF), c17pix(imgT), back(imgF), back(imgT)}
-	}()
+	obs := c17monoStep(&mono.MonoImg{}, W, H, data, pc, bc)
 	emit(append(L(Sym("mono"), W, H, data, pc, bc), obs...))
+}
+
+// ---- (monoh ((W H #data pc bc) ...) ((obs...) ...)) : a HISTORY of steps on ONE MonoImg object ----
+// (seed C17-5: derived values cached on the object survive the re-initialisation done by the next
+// CreateFromBytes / NewImage; only visible when the object is used a 2nd / 3rd time and the colours
+// are NOT set again after the re-initialisation)
+type c17step struct {
+	W, H   int
+	data   []byte
+	pc, bc int
+}
+
+func c17monoh(steps []c17step) {
+	m := &mono.MonoImg{}
+	var sx, obs []Sx
+	for _, st := range steps {
+		sx = append(sx, Sx(L(st.W, st.H, st.data, st.pc, st.bc)))
+		obs = append(obs, Sx(c17monoStep(m, st.W, st.H, st.data, st.pc, st.bc)))
+	}
+	emit(L(Sym("monoh"), sx, obs))
 }
 
 // ---- (gfx ty W H #data tw th | png direct cimg) ----
@@ -255,6 +282,35 @@ func genC17(tier string, rng *Rng) {
 			}
 		}
 	}
+	// histories on one object: colours set / left as initialised in every combination, sizes changing
+	nh := 250
+	if thorough {
+		nh = 2500
+	}
+	for i := 0; i < nh; i++ {
+		n := rng.Range(2, 5)
+		var steps []c17step
+		for k := 0; k < n; k++ {
+			W, H := rng.Range(0, 14), rng.Range(0, 6)
+			if rng.Intn(3) == 0 {
+				W = 2 * rng.Range(1, 8)
+			}
+			pc, bc := rng.Intn(64), rng.Intn(64)
+			switch (i + k) % 4 { // which colours are set again after the re-initialisation
+			case 1:
+				pc = c17leave
+			case 2:
+				bc = c17leave
+			case 3:
+				if k > 0 {
+					pc, bc = c17leave, c17leave
+				}
+			}
+			steps = append(steps, c17step{W, H, c17pattern(rng, (W+7)/8*H, rng.Range(0, 5)), pc, bc})
+		}
+		c17count("mono_data", "history")
+		c17monoh(steps)
+	}
 	nm := 600
 	if thorough {
 		nm = 3000
@@ -353,6 +409,16 @@ func replayC17(line string) {
 	case "mono":
 		if len(k) >= 6 {
 			c17mono(k[1].Int(), k[2].Int(), k[3].Bytes(), k[4].Int(), k[5].Int())
+		}
+	case "monoh":
+		if k[1].IsList {
+			var steps []c17step
+			for _, st := range k[1].Kids {
+				if st.IsList && len(st.Kids) >= 5 {
+					steps = append(steps, c17step{st.Kids[0].Int(), st.Kids[1].Int(), st.Kids[2].Bytes(), st.Kids[3].Int(), st.Kids[4].Int()})
+				}
+			}
+			c17monoh(steps)
 		}
 	case "gfx":
 		if len(k) >= 7 {
